@@ -190,6 +190,7 @@ func vScenarioC04(rc *runCtx) {
 	if badCode {
 		armed := vArmAfterCfg(x)
 		prev := dataLink.Mangle
+		blockNext := false
 		dataLink.Mangle = func(l *verifsim.Link, d []byte) []byte {
 			if prev != nil {
 				d = prev(l, d)
@@ -197,10 +198,28 @@ func vScenarioC04(rc *runCtx) {
 			if replaced != "" || !armed() {
 				return d
 			}
-			i := bytes.IndexByte(d, 0xee)
-			if i < 0 || i+1 >= len(d) {
+			// only a write that begins with a data header: the escaped block behind it starts at a pair boundary,
+			// so the first 0xee in it is a leader for certain (a write that begins in the middle of a block may
+			// begin between a leader and its code)
+			start := -1
+			if blockNext {
+				blockNext, start = false, 0 // the header went out in a write of its own: this one is the block
+			} else if bytes.HasPrefix(d, []byte("#DATA:")) {
+				nl := bytes.IndexByte(d, '\n')
+				if nl == len(d)-1 {
+					blockNext = true
+				} else if nl > 0 {
+					start = nl + 1
+				}
+			}
+			if start < 0 {
 				return d
 			}
+			i := bytes.IndexByte(d[start:], 0xee)
+			if i < 0 || start+i+1 >= len(d) {
+				return d
+			}
+			i += start
 			// the announced table, code -> protected byte
 			inv := map[byte]byte{}
 			tbl := chars
@@ -226,7 +245,7 @@ func vScenarioC04(rc *runCtx) {
 				}
 			}
 			for c := 0xf0; c < 0x100; c++ {
-				if _, def := inv[byte(c)]; def {
+				if _, def := inv[byte(c)]; def || byte(c) == d[i+1] {
 					continue
 				}
 				out := append([]byte(nil), d...)
